@@ -606,7 +606,6 @@ type minutesOf struct {
 func (m *minutesOf) Name() string   { return "minutes(" + m.of.Name() + ")" }
 func (m *minutesOf) String() string { return m.Name() }
 
-
 // fieldInitValue: v is a load of field f of a module struct type that is written in exactly one
 // place of the module (the literal that builds the value: a handler struct carrying what a
 // closure used to capture); returns what is stored there.
